@@ -11,6 +11,7 @@ def sh(cmd, cwd=None, env=ENV, timeout=3600):
     return p.returncode, p.stdout
 def failing(out):
     return {m.group(1).split("/")[0] for m in re.finditer(r"^\s*--- FAIL: (\S+)", out, re.M)}
+subprocess.run([os.path.join(os.path.dirname(os.path.abspath(__file__)), "trimcache.sh")])
 src, name, props = sys.argv[1], sys.argv[2], sys.argv[3].split(",")
 meta = json.load(open(os.path.join(src, "meta.json")))
 wt = tempfile.mkdtemp(prefix="seedwt-"); os.rmdir(wt)
